@@ -15,11 +15,11 @@ Definition pk1 (rc x R : Z) (wi : bool) : Z :=
   if wi then Z.max (x * rc + x) (Z.max (x + R) (2 * R))
   else Z.max (x * rc + x) (Z.max x (x + R)).
 Definition pk2 (rc x R : Z) (wi : bool) : Z :=
-  if wi then Z.max (2 * R + x * rc + x) (Z.max (3 * R + x) (5 * R))
-  else Z.max (x + R + x * rc + x) (Z.max (2 * x + R) (x + 4 * R)).
+  if wi then Z.max (2 * R + x * rc + x) (Z.max (2 * R + x) (5 * R))
+  else Z.max (x + R + x * rc + x) (Z.max (x + R) (x + 4 * R)).
 Definition pk3 (rc x R : Z) (wi : bool) : Z :=
-  if wi then Z.max (3 * R + x * rc + x) (Z.max (4 * R + x) (5 * R))
-  else Z.max (2 * x + 2 * R + x * rc) (Z.max (2 * x + 2 * R) (x + 4 * R)).
+  if wi then Z.max (3 * R + x * rc + x) (Z.max (3 * R + x) (5 * R))
+  else Z.max (2 * x + 2 * R + x * rc) (Z.max (x + 2 * R) (x + 4 * R)).
 
 Lemma pr_iter_first : forall rc x R wi, 0 <= R ->
   pr_iter rc x R R wi true pr0 = (pk1 rc x R wi, pr_s1 x R wi).
@@ -125,7 +125,7 @@ Qed.
 (* 4 *)
 Theorem pr_peak_closed : forall rc wc x R k, 0 <= rc -> 0 <= wc -> 0 <= x -> 0 <= R -> (3 <= k)%nat ->
   pr_task_peak rc wc x R R true k
-  = Z.max (3 * R + x * rc + x) (Z.max (4 * R + x) (Z.max (5 * R) (R + R * wc))).
+  = Z.max (3 * R + x * rc + x) (Z.max (5 * R) (R + R * wc)).
 Proof.
   intros rc wc x R k Hrc Hwc Hx HR Hk.
   unfold pr_task_peak. rewrite pr_run_closed by assumption.
@@ -134,7 +134,7 @@ Proof.
   destruct k as [|[|[|k]]]; try (exfalso; lia).
   cbn [pr_s2 st_result].
   rewrite (Z.max_r _ _ (pk_chain rc x R true Hrc Hx HR)).
-  unfold pk3. rewrite <- !Z.max_assoc. reflexivity.
+  unfold pk3. lia.
 Qed.
 
 (* 5 *)
